@@ -1065,12 +1065,15 @@ func (e *env) preJunk() bool {
 		if c.Junk == "several" && c.Hold {
 			e.bodiedRequests("/i/" + id) // the last one is a duplicate input stream: refused
 			e.requestsInProgress()
-			e.crowd()
+			e.crowd(330 + e.rng.IntN(60))
 		}
 		in.Close()
 		if _, _, ok := e.notice(`Shell is gone`, mark, boundNotice*e.mult); !ok {
 			e.res.inconclusive("no 'Shell is gone' after the throw-away input was closed")
 			return false
+		}
+		if c.Junk == "several" && c.Hold {
+			e.crowd(24) // a few more arrive after the throw-away stream has left
 		}
 		e.res.count("junk_half_attached_died", 1)
 	}
@@ -1432,6 +1435,9 @@ func (e *env) fullShell() {
 	t2 := time.Now()
 	e.t2 = t2
 	e.tl.at(t2, "HARNESS starts the request that completes the shell (%s)", c.Order)
+	tries := 0
+retry:
+	tries++
 	switch c.Order {
 	case "i-o":
 		out, err = e.openRealOut("/o/" + id)
@@ -1459,10 +1465,23 @@ func (e *env) fullShell() {
 			t.reader(in)
 		}
 	}
+	if err != nil && connectionDropped(err) && tries < 4 {
+		// the connection was accepted and then dropped before it could say anything: once more, on a new one
+		e.tl.add("HARNESS the connection of the request that completes the shell was dropped at once (%v); try %d", err, tries+1)
+		res.count("completing_request_connections_dropped_at_once", 1)
+		time.Sleep(300 * time.Millisecond)
+		goto retry
+	}
 	if err != nil {
 		e.tl.add("HARNESS second half failed: %v", err)
 		if !e.phaseA(time.Now(), "before the request that completes the shell could connect") {
-			res.inconclusive("the request that completes the shell failed: %v", err)
+			if connectionDropped(err) {
+				// four fresh connections in a row were accepted and dropped unheard while no
+				// shell is attached: whatever the socket's state, the listener is not open
+				res.violate("listener-drops-callbacks-before-any-shell", "no shell is fully attached, connect(2) to %s succeeds, but four connections in a row carrying the request that would complete the shell were dropped before the TLS handshake / the request was answered (%v); clients connected at the time: [%s]", e.addr, err, strings.Join(e.held, "; "))
+			} else {
+				res.inconclusive("the request that completes the shell failed: %v", err)
+			}
 		}
 		return
 	}
@@ -1656,11 +1675,20 @@ func (e *env) requestsInProgress() {
 	time.Sleep(150 * time.Millisecond)
 }
 
+// connectionDropped: the peer accepted the TCP connection and then reset or
+// closed it before the TLS handshake or the request got anywhere.
+func connectionDropped(err error) bool {
+	if errors.Is(err, io.EOF) || errors.Is(err, io.ErrUnexpectedEOF) || errors.Is(err, syscall.ECONNRESET) || errors.Is(err, syscall.EPIPE) {
+		return true
+	}
+	m := err.Error()
+	return strings.Contains(m, "connection reset by peer") || strings.Contains(m, "broken pipe") || strings.HasSuffix(m, "EOF")
+}
+
 // crowd: many clients that have been served or refused and simply stay
 // connected (keep-alive connections nobody closes): several hundred of them,
 // more than any connection cap of 256, before the real shell arrives.
-func (e *env) crowd() {
-	n := 330 + e.rng.IntN(60)
+func (e *env) crowd(n int) {
 	var mu sync.Mutex
 	got := 0
 	mon.Parallel(n, 16, func(k int) {
@@ -1668,7 +1696,7 @@ func (e *env) crowd() {
 		if err != nil {
 			return
 		}
-		target := []string{"/c", "/f.txt", "/no-such-file", "/i/"}[k%4] // the last one: refused (no ID)
+		target := []string{"/c", "/f.txt", "/no-such-file", "/c?c2=crowd.example"}[k%4] // all answered on a connection that stays usable
 		fmt.Fprintf(c, "GET %s HTTP/1.1\r\nHost: fake.shell\r\n\r\n", target)
 		c.SetReadDeadline(time.Now().Add(boundNotice * e.mult))
 		buf := make([]byte, 4096)
@@ -1681,7 +1709,7 @@ func (e *env) crowd() {
 		}
 		mu.Unlock()
 	})
-	e.tl.add("JUNK  a crowd of %d keep-alive clients (GET /c, a file, a missing file, an ID-less /i/), %d answered; all stay connected", n, got)
+	e.tl.add("JUNK  a crowd of %d keep-alive clients (GET /c, a file, a missing file), %d answered; all stay connected", n, got)
 	e.held = append(e.held, fmt.Sprintf("%d answered keep-alive connections", got))
 	e.res.count("junk_crowd_connections_answered_and_kept_open", int64(got))
 }
@@ -2382,7 +2410,7 @@ func Run(r *mon.Run) {
 		"progress bounds: refusal 20 s after the ready notice, exit 30 s after the one entered line, traffic 30 s; a fired bound is re-tried alone with the bound doubled, up to three times (the first two cases per bound; three in the thorough tier): " +
 			"a violation is a bound that fired under load AND again in a run alone with the bound doubled",
 		"clients hang up as soon as they are refused / their shell is gone (as curl does when its pipe ends); with hold=true (every tenth case by construction, one in six otherwise) they never hang up by themselves",
-		"the same case is preceded by a crowd of 330-390 clients that were served or refused (GET /c, a file, a missing file, an ID-less /i/) and keep their connections open to the end; one case in ten enters its one line only 23-31 s after the shell has gone (floor exits_after_an_unhurried_line; a program that has left by itself before that with status 0 is fine, with another status it is exit-status-nonzero)",
+		"the same case is preceded by a crowd of 330-390 clients that were served or refused (GET /c, a file, a missing file) and keep their connections open to the end; one case in ten enters its one line only 23-31 s after the shell has gone (floor exits_after_an_unhurried_line; a program that has left by itself before that with status 0 is fine, with another status it is exit-status-nonzero)",
 		"requests left hanging in the middle (every tenth case, the one whose refused uploads stay connected): before the real shell arrives, clients send a form POST to /c (curl -d c2=..., documented) of which only a part arrives (declared length, chunked), an OPTIONS * request with an unfinished body (answered by net/http itself, no handler of the program sees it), and GET /big.bin (64 MiB, sparse) whose answer they never read; they stay connected and silent to the end; this is traffic in flight when the listener closes, and the program must still exit at the operator's next line (key does-not-exit-after-one-line:request-in-progress-still-connected)",
 		"the process is given 2 s (every fifth case 10 s) to exit by itself before exactly one empty line is entered",
 		"late requests on pre-opened connections: whether they are served, refused or find their connection already closed is promised neither way and only counted (late_*); " +
